@@ -265,11 +265,12 @@ def r3(run, ctx):
             oke = 'self.env' in norm_text(a.value)
     run.check('R3', oke, "the env table is the worker's environment", f, fk)
     txt = norm_text(f.node)
-    run.check('R3', "format_kwargs['sockets'] = sockets_fds" in txt, 'sockets are available', f, fk)
+    run.check('R3', astq.has_pattern(txt, "$k['sockets'] = sockets_fds"), 'sockets are available', f, fk)
     loops = [n for n in ast.walk(f.node) if isinstance(n, ast.For) and
              norm_text(n.iter) == 'self.watcher.optnames']
-    run.check('R3', bool(loops) and 'format_kwargs[option] = getattr(self.watcher, option)' in
-              ' '.join(norm_text(x) for x in (loops[0].body if loops else [])),
+    run.check('R3', bool(loops) and astq.has_pattern(
+        ' '.join(norm_text(x) for x in (loops[0].body if loops else [])),
+        '$k[$o] = getattr(self.watcher, $o)'),
               'every watcher option is available', f, fk)
     sp = ctx.fn(W + 'spawn_process')
     for s in ctx.sites_calling(sp, [P + '__init__']):
@@ -367,12 +368,13 @@ def r4(run, ctx):
                  'documented reference syntaxes: %r' % pat)
     f = ctx.fn('circus.util:replace_gnu_args')
     txt = norm_text(f.node)
-    run.check('R4', 'key = key.lower()' in txt and 'subkey = subkey.lower()' in txt,
+    run.check('R4', astq.has_pattern(txt, '$k = $k.lower()') and
+              len(astq.pattern_regex('$k = $k.lower()').findall(txt)) >= 2,
               'option keys are lower-cased', f, f.node,
               'option names are compared case-sensitively')
     rp = ctx.fn('circus.util:replace_gnu_args._repl')
     t2 = norm_text(rp.node)
-    run.check('R4', 'option = result.lower()' in t2, 'the referenced name is lower-cased', rp,
+    run.check('R4', astq.has_pattern(t2, '$o = $r.lower()'), 'the referenced name is lower-cased', rp,
               rp.node, 'references are looked up case-sensitively')
     cfg = ctx.cfg(rp)
     rets = [n for n in ctx.live_nodes(rp) if n.kind == 'stmt' and isinstance(n.ast, ast.Return)]
